@@ -1,5 +1,6 @@
 pub mod common;
 pub mod c01;
+pub mod c02;
 pub mod c03;
 pub mod c04;
 pub mod c05;
@@ -17,11 +18,12 @@ pub mod c18;
 
 use crate::engine::Property;
 
-pub const ALL_IDS: &[&str] = &["C01", "C03", "C04", "C05", "C07", "C08", "C09", "C10", "C11", "C12", "C13", "C14", "C16", "C17", "C18"];
+pub const ALL_IDS: &[&str] = &["C01", "C02", "C03", "C04", "C05", "C07", "C08", "C09", "C10", "C11", "C12", "C13", "C14", "C16", "C17", "C18"];
 
 pub fn build(id: &str) -> Option<Property> {
     match id {
         "C01" => Some(c01::build()),
+        "C02" => Some(c02::build()),
         "C03" => Some(c03::build()),
         "C04" => Some(c04::build()),
         "C05" => Some(c05::build()),
